@@ -70,7 +70,7 @@ def check_text(rep, drv, rng, text, delta, fname, points, model=None, extra=None
     if isinstance(code, Exception):
         key = None
         nm = type(code).__name__
-        if nm == "PrintMethodNotImplementedError":
+        if nm == "PrintMethodNotImplementedError" or (nm == "ValueError" and "_print_Derivative" in str(code)):
             key = "C06-derivative-of-floor-or-mod-unprintable"
         rep.violation(f"generating {fname} raises {nm}: {str(code)[:150]}",
                       {"kind": "direct", "text": text, "delta": delta, "exception": repr(code)[:300]}, finding_key=key)
